@@ -118,6 +118,18 @@ def replay(case):
             lam, t, it = evp.als(A, xfull, repeats=1, solver='eig', sigma=w[0] - 1.0, **kw)
             if consistent(lam, t, 'als:eig') and abs(lam - w[0]) > 1e-8 * scale:
                 out.append(('als:eig:fullrank:%s' % kind, 'guess of maximal ranks, target below the spectrum: lambda %r vs %r' % (lam, w[0])))
+        # ---- several eigenpairs at once (block version): every returned pair is a consistent Ritz pair.  (Exactness at
+        # maximal ranks is not claimed: the trains of several eigenvectors share all cores but one, which the maximal
+        # ranks of a single vector do not accommodate.)
+        if d >= 2 and N >= 4 and min(a * n * b for a, n, b in zip(cfg['r0'][:-1], dims, cfg['r0'][1:])) >= 2:
+            for solver in ('eigh', 'eig'):
+                lams, ts, it = evp.als(A, x0, number_ev=2, repeats=2, solver=solver, sigma=w[-1] + 1.0, **kw)
+                if len(lams) != 2 or not isinstance(ts, list) or len(ts) != 2:
+                    out.append(('als:%s:block:length' % solver, 'number_ev=2 must return 2 eigenvalues and 2 eigentensors'))
+                    continue
+                for k in range(2):
+                    if not consistent(complex(lams[k]), ts[k], 'als:%s:block' % solver):
+                        break
         # ---- eigs on micro problems that are large enough for ARPACK
         if d >= 2 and min(a * n * b for a, n, b in zip(cfg['r0'][:-1], dims, cfg['r0'][1:])) >= 6 and B is None and top_sep:
             lam, t, it = evp.als(A, x0, repeats=2, solver='eigs', sigma=w[-1] + 1.0, **kw)
